@@ -685,8 +685,13 @@ func c13allParked() bool {
 		if a < 0 || b < a {
 			continue
 		}
-		switch string(blk[a+1 : b]) {
-		case "running", "runnable", "syscall", "sleep":
+		st := string(blk[a+1 : b])
+		switch {
+		// "GC assist wait", "preempted", "copystack", "waiting": a goroutine the runtime holds for a moment and that
+		// goes on by itself — not parked (seen in the thorough tier: a timer goroutine in a GC assist looked parked,
+		// the armed list was read before it had armed)
+		case st == "running", st == "runnable", st == "syscall", st == "sleep", st == "preempted", st == "copystack",
+			st == "waiting", strings.HasPrefix(st, "GC ") || strings.HasPrefix(st, "wait for GC"):
 			// GC workers and the like are idle ("GC worker (idle)") and never "runnable" for long
 			if bytes.Contains(blk, []byte("runtime.gcBgMarkWorker")) || bytes.Contains(blk, []byte("runtime.bgsweep")) ||
 				bytes.Contains(blk, []byte("runtime.bgscavenge")) || bytes.Contains(blk, []byte("runtime.runfinq")) {
@@ -755,6 +760,7 @@ func c13ecase(out *rec.Out, d c13def, ops []c13op, hold int, stats map[string]in
 	emit := func(name string, arg int64) {
 		listen, observed, cont, done, errs := 0, 0, 0, 0, 0
 		deadline := time.Now().Add(5 * time.Second)
+		stable := 0
 		for i := 0; ; i++ {
 			parked := c13allParked()
 			got := false
@@ -785,8 +791,14 @@ func c13ecase(out *rec.Out, d c13def, ops []c13op, hold int, stats map[string]in
 					break drain
 				}
 			}
+			// two looks in a row that find everybody parked and nothing new
 			if parked && !got {
-				break
+				stable++
+				if stable >= 2 {
+					break
+				}
+			} else {
+				stable = 0
 			}
 			if i > 100 && time.Now().After(deadline) {
 				out.Line("stuck not-quiescent")
